@@ -101,6 +101,7 @@ package ice
 //@   site call setSelectedPair#1 assert C03 selects-only-nominated-valid: (hasUseCandidate || hasValidNomination) && s.agent.gNomAccepted && pair.state == pairSucceeded && arg1 == pair
 //@   site store nominateOnBindingSuccess#1 assert C03 deferred-only-when-nominated: (hasUseCandidate || hasValidNomination) && s.agent.gNomAccepted && object == pair && value == true && pair.state != pairSucceeded
 //@   site store nominationValueOnBindingSuccess#1 assert C20 deferred-nomination-keeps-its-value: object == pair && value == nominationValue && pair.state != pairSucceeded && s.agent.gNomAccepted
+//@   site call sendBindingSuccess#2 assert C20 an-accepted-nomination-on-a-not-yet-valid-pair-is-remembered-with-its-latest-value: s.agent.gNomAccepted && (hasUseCandidate || hasValidNomination) && pair.state != pairSucceeded ==> pair.nominateOnBindingSuccess && pair.nominationValueOnBindingSuccess == nominationValue
 //@   site call sendBindingSuccess#1 assert C20 rejected-nomination-still-answered: !s.agent.gNomAccepted && arg1 == message
 
 //@ func (*Agent).handleBindingRequestWithCustomHandler
